@@ -56,7 +56,7 @@ BR = "protocol.BlockwiseRequest."
 # statement positions; it follows definitions and branch outcomes.
 # ===========================================================================
 
-_PURE_BUILTINS = {"len", "min", "max", "int", "bool", "abs"}
+_PURE_BUILTINS = {"len", "min", "max", "int", "bool", "abs", "divmod"}
 _IMPURE_NODES = (ast.Await, ast.Yield, ast.YieldFrom, ast.NamedExpr, ast.Lambda, ast.ListComp, ast.SetComp,
                  ast.DictComp, ast.GeneratorExp, ast.JoinedStr)
 
@@ -202,14 +202,23 @@ class Expander:
 
     def _pure_value(self, v):
         for n in ast.walk(v):
+            if isinstance(n, ast.NamedExpr):
+                # `(u := V)` inside a definition: the expansion reads it as V (see _expand); the binding of u is a
+                # write of its own that the reaching-definition analysis accounts for
+                continue
             if isinstance(n, _IMPURE_NODES):
                 return False
+            if isinstance(n, ast.Call) and isinstance(n.func, ast.Attribute) and n.func.attr == "get" \
+                    and (isinstance(n.func.value, ast.Dict) or self._module_table(n.func.value) is not None):
+                continue  # reading a dict display / a module-level table of constants has no effect
             if isinstance(n, ast.Call) and not self.pure(n):
                 return False
         return True
 
     @staticmethod
     def _def_value(name, st):
+        if isinstance(st, ast.NamedExpr):
+            return st.value
         if isinstance(st, ast.Assign) and len(st.targets) == 1 and isinstance(st.targets[0], ast.Name):
             return st.value
         if isinstance(st, ast.AnnAssign) and st.value is not None and isinstance(st.target, ast.Name):
@@ -218,6 +227,17 @@ class Expander:
             return ast.BinOp(left=ast.Name(id=name, ctx=ast.Load()), op=st.op, right=st.value)
         if isinstance(st, ast.Assign) and len(st.targets) == 1 and isinstance(st.targets[0], (ast.Tuple, ast.List)):
             return unpacked_value(st.targets[0], st.value, name)
+        if isinstance(st, ast.Assign) and len(st.targets) > 1:
+            # chained assignment `a = b = V` / `a = (b, c) = V`: V is evaluated once and bound to every target
+            # (left to right), so each target that binds `name` receives V (or its element of V).  The callers
+            # only substitute pure values, for which "evaluated once" and "evaluated at each use" coincide; a
+            # value that mentions a name rebound by the same statement is retagged by _stale as for `a, b = b, a`.
+            # Exactly one target may bind the name (a name bound twice in one chain keeps the last binding, and
+            # a subscript/attribute target evaluated after the name was rebound is outside this vocabulary).
+            hits = [t for t in st.targets if any(isinstance(x, ast.Name) and x.id == name and isinstance(x.ctx, ast.Store) for x in ast.walk(t))]
+            if len(hits) != 1:
+                return None
+            return unpacked_value(hits[0], st.value, name)
         return None
 
     def reaching(self, name, nid):
@@ -329,6 +349,8 @@ class Expander:
             return [(e, ())]
         if isinstance(e, ast.Name):
             return self._name(e, nid, depth)
+        if isinstance(e, ast.NamedExpr):
+            return self.expand(e.value, nid, depth + 1)  # the value of `(u := V)` is V
         if isinstance(e, ast.Attribute):
             c = chain(e)
             if c is not None and c in self.subst:
@@ -352,6 +374,16 @@ class Expander:
                     out.append((b, c1 + c2))
             self._tick(len(out))
             return out
+        if self.minmax and isinstance(e, ast.Call) and chain(e.func) in ("min", "max") and not e.keywords:
+            # min(a, b, c) == min(min(a, b), c); min((a, b)) / min([a, b]) == min(a, b)
+            args = e.args
+            if len(args) == 1 and isinstance(args[0], (ast.Tuple, ast.List)) and len(args[0].elts) >= 2:
+                args = args[0].elts
+            if len(args) > 2 and not any(isinstance(a, ast.Starred) for a in args):
+                inner = ast.Call(func=e.func, args=list(args[:-1]), keywords=[])
+                return self.expand(ast.Call(func=e.func, args=[inner, args[-1]], keywords=[]), nid, depth + 1)
+            if args is not e.args and len(args) == 2 and not any(isinstance(a, ast.Starred) for a in args):
+                return self.expand(ast.Call(func=e.func, args=list(args), keywords=[]), nid, depth + 1)
         if self.minmax and isinstance(e, ast.Call) and chain(e.func) in ("min", "max") and len(e.args) == 2 and not e.keywords \
                 and not any(isinstance(a, ast.Starred) for a in e.args):
             out = []
@@ -366,7 +398,121 @@ class Expander:
                         out.append((b if is_min else a, ca + cb + (((lt, False),) if k is None else ())))
             self._tick(len(out))
             return out
-        return self._generic(e, nid, depth)
+        out = self._generic(e, nid, depth)
+        if isinstance(e, (ast.Subscript, ast.Call)):
+            out = [(self._fold_lookup(v), c) for v, c in out]
+        return out
+
+    # -- table lookups ---------------------------------------------------
+    def _module_table(self, e):
+        """The display bound to a module-level table name: `e` is a Name that is neither a local nor a parameter of
+        the function, the module binds it exactly once at top level to a tuple/list/dict display, and nothing in
+        the module stores into it, deletes from it, rebinds it or calls a method on it other than the read-only
+        ones.  None otherwise."""
+        if not isinstance(e, ast.Name) or self.writes(e.id) or e.id in params(self.fi) or e.id in self.subst:
+            return None
+        a = self.fi.node.args
+        if e.id in {x.arg for x in a.posonlyargs + a.args + a.kwonlyargs + [y for y in (a.vararg, a.kwarg) if y is not None]}:
+            return None
+        key = ("table", e.id)
+        if key not in self._memo:
+            tree = getattr(self.fi.module, "tree", None)
+            val = None
+            if tree is not None:
+                binds = [st for st in tree.body if isinstance(st, (ast.Assign, ast.AnnAssign))
+                         and any(isinstance(x, ast.Name) and x.id == e.id and isinstance(x.ctx, ast.Store) for x in ast.walk(st))]
+                ok = len(binds) == 1 and (isinstance(binds[0], ast.AnnAssign) or len(binds[0].targets) == 1) \
+                    and isinstance(binds[0].target if isinstance(binds[0], ast.AnnAssign) else binds[0].targets[0], ast.Name) \
+                    and isinstance(binds[0].value, (ast.Tuple, ast.List, ast.Dict))
+                if ok:
+                    for n in ast.walk(tree):
+                        if isinstance(n, ast.Name) and n.id == e.id and not isinstance(n.ctx, ast.Load) and not any(n is x for x in ast.walk(binds[0])):
+                            ok = False
+                        elif isinstance(n, (ast.Global, ast.Nonlocal)) and e.id in n.names:
+                            ok = False
+                        elif isinstance(n, ast.Subscript) and not isinstance(n.ctx, ast.Load) and isinstance(n.value, ast.Name) and n.value.id == e.id:
+                            ok = False
+                        elif isinstance(n, ast.Attribute) and isinstance(n.value, ast.Name) and n.value.id == e.id \
+                                and n.attr not in ("get", "keys", "values", "items", "index", "count"):
+                            ok = False
+                        elif isinstance(n, ast.AugAssign) and isinstance(n.target, ast.Name) and n.target.id == e.id:
+                            ok = False
+                        elif isinstance(n, (ast.FunctionDef, ast.AsyncFunctionDef, ast.Lambda)) and n is not self.fi.node \
+                                and any(x.arg == e.id for x in ast.walk(n.args) if isinstance(x, ast.arg)) and any(y is self.fi.node for y in ast.walk(n)):
+                            ok = False  # an enclosing function's parameter shadows the module-level name
+                    if ok:
+                        try:
+                            norm.consteval(binds[0].value)  # a table of constants only
+                            val = binds[0].value
+                        except (NormError, TypeError, ValueError):
+                            val = None
+            self._memo[key] = (e, val)
+        return self._memo[key][1]
+
+    def _fold_lookup(self, v):
+        """Reads of a literal table with a constant key, decided by the checker: `(a, b, c)[1]`, `[a, b][-1]`,
+        `{k: a}[k]`, `{k: a}.get(k2, d)`, `divmod(a, b)[0]` (== a // b) and `divmod(a, b)[1]` (== a % b); the
+        table may be a display or a module-level table of constants.  The operands of the display have been
+        expanded already (they are pure, so dropping the elements that are not selected changes nothing).
+        Anything else -- a key that is absent (KeyError / IndexError at run time), a non-constant key, `**`/`*`
+        entries -- is returned unchanged."""
+        _KEYS = (int, str, bytes, bool, type(None))
+
+        def key_of(k):
+            """(True, python value) of a key expression made of constants only (`7`, `size_exp == 7` after the
+            exponent has been substituted), else (False, None)."""
+            if isinstance(k, ast.Constant):
+                return (isinstance(k.value, _KEYS), k.value)
+            if isinstance(k, (ast.Compare, ast.BoolOp, ast.UnaryOp, ast.BinOp)):
+                try:
+                    val = norm.consteval(k)
+                except (NormError, TypeError, ValueError, ZeroDivisionError):
+                    return (False, None)
+                return (isinstance(val, _KEYS), val)
+            return (False, None)
+
+        def table(b):
+            if isinstance(b, (ast.Tuple, ast.List, ast.Dict)):
+                return b
+            return self._module_table(b)
+
+        def dict_get(d, k):
+            """(value expression or None when absent, True) -- (None, False) when the display has keys the checker
+            cannot compare."""
+            keys = []
+            for x in d.keys:
+                ok, kv = key_of(x) if x is not None else (False, None)
+                if not ok:
+                    return None, False
+                keys.append(kv)
+            for kk, vv in reversed(list(zip(keys, d.values))):
+                if kk == k:  # Python's own key equality (1 == True == 1.0), as in the dict
+                    return vv, True
+            return None, True
+
+        if isinstance(v, ast.Subscript) and not isinstance(v.slice, (ast.Slice, ast.Tuple)):
+            ok, k = key_of(v.slice)
+            if ok:
+                if isinstance(v.value, ast.Call) and chain(v.value.func) == "divmod" and len(v.value.args) == 2 and not v.value.keywords \
+                        and not any(isinstance(x, ast.Starred) for x in v.value.args) and isinstance(k, int) and k in (0, 1, -1, -2):
+                    return ast.BinOp(left=v.value.args[0], op=ast.FloorDiv() if k in (0, -2) else ast.Mod(), right=v.value.args[1])
+                t = table(v.value)
+                if isinstance(t, (ast.Tuple, ast.List)) and isinstance(k, int) and not any(isinstance(x, ast.Starred) for x in t.elts) \
+                        and -len(t.elts) <= k < len(t.elts):
+                    return t.elts[int(k)]
+                if isinstance(t, ast.Dict):
+                    got, known = dict_get(t, k)
+                    if known and got is not None:
+                        return got
+        if isinstance(v, ast.Call) and isinstance(v.func, ast.Attribute) and v.func.attr == "get" and not v.keywords \
+                and 1 <= len(v.args) <= 2 and not any(isinstance(x, ast.Starred) for x in v.args):
+            ok, k = key_of(v.args[0])
+            t = table(v.func.value) if ok else None
+            if isinstance(t, ast.Dict):
+                got, known = dict_get(t, k)
+                if known:
+                    return got if got is not None else (v.args[1] if len(v.args) == 2 else ast.Constant(value=None))
+        return v
 
     def _name(self, e, nid, depth):
         if e.id in self.subst:
@@ -374,6 +520,10 @@ class Expander:
         ws = self.writes(e.id)
         if not ws or e.id in self.opaque:
             return [(e, ())]
+        if any(isinstance(st, ast.NamedExpr) and wn == nid for wn, st in ws):
+            # `f((u := a), u)`: whether this use sees the binding depends on the evaluation order inside one
+            # statement, which the statement-level CFG does not model
+            raise AnalysisError("%s is bound by an assignment expression in the statement that also reads it (%s)" % (e.id, self.fi.short))
         defs, entry = self.reaching(e.id, nid)
         if entry or not defs:
             return [(e, ())]
@@ -535,6 +685,10 @@ def entails(lits, goal):
             if l[0] == "lt":
                 c = _diff_const(q, l[1])  # q = p + c, p <= -1
                 if c is not None and c <= 0:
+                    return True
+                if c == 1 and (("ne", q) in lits or ("ne", -q) in lits):
+                    # q - 1 < 0 (q <= 0 over the integers) together with q != 0 is q < 0: `end != total` after
+                    # `end = min(.., total)` is the same fact as `end < total`
                     return True
             elif l[0] == "eq" and len(l) == 2:
                 for s in (1, -1):
@@ -747,6 +901,50 @@ def P(src, N=None):
     return (N or Normalizer()).poly(ast.parse(src, mode="eval").body)
 
 
+class DivNormalizer(Normalizer):
+    """Normalizer in which the spellings of integer division by a constant power agree.  For Python integers (any
+    sign) `x % k == x - k*(x // k)`, `x & (2^j - 1) == x % 2^j`, `x & -2^j == x - x % 2^j` (`x & ~1023`) and
+    `x >> j == x // 2^j`, so `m - m % 1024`, `(m >> 10) << 10`, `m & ~1023` and `1024 * (m // 1024)` all become
+    the same polynomial over the one opaque atom floordiv(m, 1024)."""
+
+    def _int(self, e):
+        try:
+            k = self.poly(e).const_value()
+        except NormError:
+            try:
+                k = norm.consteval(e)
+            except (NormError, TypeError, ValueError):
+                return None
+            return k if isinstance(k, int) and not isinstance(k, bool) else None
+        return int(k) if k is not None and k.denominator == 1 else None
+
+    @staticmethod
+    def _fd(l, k):
+        return Poly.atom("floordiv(%r,%r)" % (l, Poly.const(k)))
+
+    def poly(self, e):
+        if isinstance(e, ast.BinOp):
+            if isinstance(e.op, ast.Mod):
+                k = self._int(e.right)
+                if k is not None and k > 0:
+                    l = self.poly(e.left)
+                    return l - Poly.const(k) * self._fd(l, k)
+            elif isinstance(e.op, ast.BitAnd):
+                for a, b in ((e.left, e.right), (e.right, e.left)):
+                    k = self._int(b)
+                    if k is not None and k > 0 and (k & (k + 1)) == 0:
+                        l = self.poly(a)
+                        return l - Poly.const(k + 1) * self._fd(l, k + 1)
+                    if k is not None and k < 0 and (-k & (-k - 1)) == 0:
+                        l = self.poly(a)
+                        return Poly.const(-k) * self._fd(l, -k)
+            elif isinstance(e.op, ast.RShift):
+                k = self._int(e.right)
+                if k is not None and 0 <= k <= 64:
+                    return self._fd(self.poly(e.left), 2 ** k)
+        return super().poly(e)
+
+
 def unit_exp(s):
     """Exponent of the byte unit of a block number at size exponent s (A.4; BERT counts in 1024)."""
     return min(s, 6) + 4
@@ -804,68 +1002,260 @@ def flat_keywords(call):
     return out
 
 
-def materialise_splats(fi, call, nid):
-    """`kw = {...}; kw[k] = v; kw.update(x=y); f(**kw)`: a copy of `call` (evaluated at CFG node nid) in which
-    every `**name` operand whose dict is built up by item stores / update() is replaced by the equivalent dict
-    display `{**<initial>, k: v, "x": y}`.  Only straight-line build-ups are interpreted: every store dominates
-    the call, follows the initial binding, sits in no loop, and nothing it mentions is rebound before the
-    call; anything else is refused (AnalysisError).  Calls without such operands are returned unchanged."""
-    if not isinstance(call, ast.Call):
-        return call
+_PATH_LIMIT = 2048
+
+
+def _dict_value(v):
+    return isinstance(v, ast.Dict) or (isinstance(v, ast.Call) and chain(v.func) == "dict")
+
+
+def buildup_alternatives(fi, binds, events, nid, what):
+    """The contents a mapping has at CFG node `nid`, as dict displays -- one per way of getting there.
+
+    binds:  [(CFG node, initial value expression)] -- the statements that (re)bind the mapping;
+    events: {CFG node: [(key expression | None for a `**`/update operand, value expression, "set" | "default")]}
+            -- the statements that insert into it (`d[k] = v`, `d.update(..)`, `d |= ..`, `d.setdefault(k, v)`,
+            or, for a message under construction, `m.opt.k = v`).
+    Result: [(display, ((test, polarity), ...))]: for every acyclic path from a binding to `nid` that passes no
+    other binding, the display `{**{**init, k1: v1}, k2: v2}` of the inserts met on the path in path order
+    (`{k: v, **prev}` for setdefault) together with the branch outcomes taken on the path.  Paths that differ
+    only in the outcome of one test and carry the same inserts are merged (the test is then irrelevant).  This
+    is the same fact whether the inserts are unconditional, sit in the arms of an if/else, or follow a guard
+    clause.  Refused (AnalysisError): an insert inside a loop, a value that mentions a local rebound before
+    `nid`, more than _PATH_LIMIT paths."""
     cfg = cfg_of(fi)
-    new_kws, changed = [], False
-    for k in call.keywords:
-        if k.arg is not None or not isinstance(k.value, ast.Name):
-            new_kws.append(k)
+    bindnodes = {bn for bn, _ in binds}
+    back_all = rreach(cfg, nid, avoid=bindnodes) | {nid}
+    # nothing an insert (or the initial value) mentions may be rebound before the mapping is read
+    for sn, items in [(bn, [(None, v, "set")]) for bn, v in binds] + list(events.items()):
+        between = cfg.reach({sn}) & back_all
+        if sn != nid and nid not in cfg.reach({sn}):
             continue
-        nm = k.value.id
-        stores = stores_to(fi.node, nm, nested=False)
-        if all(kind == "assign" for kind, _n in stores):
-            new_kws.append(k)
+        for kx, vx, _mode in items:
+            for y in names_in(vx) | (names_in(kx) if kx is not None else set()):
+                if any(set(cfg.locate(w)) & between for w in writes_to_name(fi.node, y)):
+                    raise AnalysisError("%s: %s is rebound between the store and the read" % (what, y))
+    out = []
+    for bn, init in binds:
+        if bn == nid:
             continue
-        what = "dict %s passed as ** operand in %s" % (nm, fi.short)
-        inits = [n for kind, n in stores if kind == "assign"]
-        if len(inits) != 1 or not (isinstance(inits[0], ast.Assign) and len(inits[0].targets) == 1 and isinstance(inits[0].targets[0], ast.Name)):
-            raise AnalysisError("%s: not built up from a single initial binding" % what)
-        init = inits[0]
-        if not (isinstance(init.value, ast.Dict) or (isinstance(init.value, ast.Call) and chain(init.value.func) == "dict")):
-            raise AnalysisError("%s: initial value is not a dict display" % what)
-        i0 = cfg.loc1(init)
-        steps = []
-        for kind, n in stores:
-            if n is init:
-                continue
-            if kind == "setitem" and isinstance(n, ast.Assign) and len(n.targets) == 1 and isinstance(n.targets[0], ast.Subscript) \
-                    and isinstance(n.targets[0].value, ast.Name) and not isinstance(n.targets[0].slice, ast.Slice):
-                items = [(n.targets[0].slice, n.value)]
-            elif kind == "update" and isinstance(n, ast.Call) and isinstance(cfg.nodes[cfg.loc1(n)].ast, ast.Expr) and cfg.nodes[cfg.loc1(n)].ast.value is n \
-                    and len(n.args) <= 1 and not any(isinstance(x, ast.Starred) for x in n.args):
-                items = [(None, x) for x in n.args] + [(ast.Constant(value=kk.arg) if kk.arg is not None else None, kk.value) for kk in n.keywords]
-            else:
-                raise AnalysisError("%s: modified by something other than item assignment / update(): %s" % (what, stmt_text(n, 60)))
-            sn = cfg.loc1(n)
-            if not (cfg.dominates(i0, sn) and cfg.dominates(sn, nid)) or sn in cfg.reach({sn}) or sn == nid:
-                raise AnalysisError("%s: item store %s is conditional, in a loop or after the call" % (what, stmt_text(n, 60)))
-            steps.append((sn, items))
-        steps.sort(key=lambda x: len(cfg.dominators(x[0])))
-        for sn, items in [(i0, [(None, init.value)])] + steps:
-            between = cfg.reach({sn}) & (rreach(cfg, nid) | {nid})
-            for kx, vx in items:
-                for y in names_in(vx) | (names_in(kx) if kx is not None else set()):
-                    if any(set(cfg.locate(w)) & between for w in writes_to_name(fi.node, y)):
-                        raise AnalysisError("%s: %s is rebound between the store and the call" % (what, y))
-        keys, vals = [None], [init.value]
-        for _sn, items in steps:
-            for kx, vx in items:
-                keys.append(kx)
-                vals.append(vx)
-        new_kws.append(ast.keyword(arg=None, value=ast.Dict(keys=keys, values=vals)))
-        changed = True
-    if not changed:
-        return call
-    out = copy.copy(call)
-    out.keywords = new_kws
+        fwd = cfg.reach({bn}, avoid=bindnodes)
+        if nid not in fwd:
+            continue
+        region = (fwd & back_all) | {nid}
+        on_cycle = {q for q in region if q in cfg.reach({q}, avoid=bindnodes) & region}
+        for sn in events:
+            if sn in region and sn in on_cycle:
+                raise AnalysisError("%s: store %s is in a loop" % (what, stmt_text(cfg.nodes[sn].ast, 60)))
+        paths = {}
+
+        def dfs(n, seen, steps, conds):
+            if n == nid:
+                paths[(steps, frozenset((id(t), pol) for t, pol in conds))] = (steps, conds)
+                if len(paths) > _PATH_LIMIT:
+                    raise AnalysisError("%s: too many paths between the initial binding and the read" % what)
+                return
+            for m, lab in cfg.succ[n]:
+                if lab == "back" or m not in region or m in seen:
+                    continue
+                nd = cfg.nodes[m]
+                st2, c2 = steps, conds
+                if m in events and m != nid:
+                    st2 = steps + (m,)
+                if nd.kind in ("T", "F") and isinstance(nd.ast, ast.expr) and m not in on_cycle:
+                    c2 = conds + ((nd.ast, nd.kind == "T"),)
+                dfs(m, seen | {m}, st2, c2)
+
+        dfs(bn, frozenset([bn]), (), ())
+        # merge paths with equal inserts that differ in exactly one branch outcome
+        groups = {}
+        for steps, conds in paths.values():
+            groups.setdefault(steps, set()).add(frozenset((id(t), pol) for t, pol in conds))
+        tests = {id(t): t for _steps, conds in paths.values() for t, _pol in conds}
+        for steps, csets in groups.items():
+            changed = True
+            while changed:
+                changed = False
+                for c in list(csets):
+                    for lit in c:
+                        twin = (c - {lit}) | {(lit[0], not lit[1])}
+                        if twin in csets and twin != c:
+                            csets.discard(c)
+                            csets.discard(twin)
+                            csets.add(c - {lit})
+                            changed = True
+                            break
+                    if changed:
+                        break
+            # drop alternatives subsumed by a weaker one
+            for c in list(csets):
+                if any(o < c for o in csets):
+                    csets.discard(c)
+            for c in sorted(csets, key=lambda x: sorted((str(k), v) for k, v in x)):
+                cur = init
+                for sn in steps:
+                    for kx, vx, mode in events[sn]:
+                        if mode == "set":
+                            cur = ast.Dict(keys=[None, kx], values=[cur, vx])
+                        else:
+                            cur = ast.Dict(keys=[kx, None], values=[vx, cur])
+                out.append((cur, tuple((tests[i], pol) for i, pol in sorted(c, key=lambda x: (str(x[0]), x[1])))))
+    if not out:
+        raise AnalysisError("%s: no binding reaches the read" % what)
     return out
+
+
+def _stmt_call(cfg, n):
+    """n is a call evaluated as a statement of its own (its value is discarded)."""
+    st = cfg.nodes[cfg.loc1(n)].ast
+    return isinstance(st, ast.Expr) and st.value is n
+
+
+def _other_uses(fi, name, allowed):
+    """Name nodes `name` in the function that are not in `allowed` (ids) and not arguments of a logging call."""
+    logged = set()
+    for c in ast.walk(fi.node):
+        if isinstance(c, ast.Call) and is_log_call(c):
+            logged |= {id(x) for x in ast.walk(c)}
+    return [x for x in ast.walk(fi.node) if isinstance(x, ast.Name) and x.id == name and id(x) not in allowed and id(x) not in logged]
+
+
+def dict_buildup(fi, nm, nid, operand=None):
+    """Displays (with path conditions) of the dict local `nm` at node nid when it is built up by stores after its
+    binding; None when the name is only ever bound (the Expander's reaching definitions then describe it)."""
+    cfg = cfg_of(fi)
+    stores = stores_to(fi.node, nm, nested=False)
+    if all(kind == "assign" and not isinstance(n, ast.AugAssign) for kind, n in stores):
+        return None
+    what = "dict %s passed as ** operand in %s" % (nm, fi.short)
+    binds, events, allowed = [], {}, set()
+    if operand is not None:
+        allowed.add(id(operand))
+    for kind, n in stores:
+        items = None
+        if kind == "assign" and isinstance(n, ast.Assign) and len(n.targets) == 1 and isinstance(n.targets[0], ast.Name):
+            if not _dict_value(n.value):
+                raise AnalysisError("%s: bound to something that is not a dict display" % what)
+            binds.append((cfg.loc1(n), n.value))
+            allowed.add(id(n.targets[0]))
+            continue
+        if kind == "assign" and isinstance(n, ast.AnnAssign) and isinstance(n.target, ast.Name) and n.value is not None:
+            if not _dict_value(n.value):
+                raise AnalysisError("%s: bound to something that is not a dict display" % what)
+            binds.append((cfg.loc1(n), n.value))
+            allowed.add(id(n.target))
+            continue
+        if kind == "assign" and isinstance(n, ast.AugAssign) and isinstance(n.op, ast.BitOr) and isinstance(n.target, ast.Name):
+            items = [(None, n.value, "set")]  # d |= other  ==  d.update(other)
+            allowed.add(id(n.target))
+        elif kind == "setitem" and isinstance(n, ast.Assign) and all(
+                isinstance(t, ast.Subscript) and isinstance(t.value, ast.Name) and t.value.id == nm and not isinstance(t.slice, ast.Slice) for t in n.targets):
+            items = [(t.slice, n.value, "set") for t in n.targets]
+            allowed |= {id(t.value) for t in n.targets}
+        elif kind == "update" and isinstance(n, ast.Call) and _stmt_call(cfg, n) and isinstance(n.func.value, ast.Name) \
+                and len(n.args) <= 1 and not any(isinstance(x, ast.Starred) for x in n.args):
+            items = [(None, x, "set") for x in n.args] + [(ast.Constant(value=kk.arg) if kk.arg is not None else None, kk.value, "set") for kk in n.keywords]
+            allowed.add(id(n.func.value))
+        elif kind == "setdefault" and isinstance(n, ast.Call) and _stmt_call(cfg, n) and isinstance(n.func.value, ast.Name) \
+                and 1 <= len(n.args) <= 2 and not n.keywords and not any(isinstance(x, ast.Starred) for x in n.args):
+            items = [(n.args[0], n.args[1] if len(n.args) == 2 else ast.Constant(value=None), "default")]
+            allowed.add(id(n.func.value))
+        if items is None:
+            raise AnalysisError("%s: modified by something other than item assignment / update() / setdefault(): %s" % (what, stmt_text(n, 60)))
+        events.setdefault(cfg.loc1(n), []).extend(items)
+    if not binds:
+        raise AnalysisError("%s: no initial binding" % what)
+    others = _other_uses(fi, nm, allowed)
+    if others:
+        raise AnalysisError("%s: the dict is also used in a way the checker does not interpret (it may be modified there)" % what)
+    return buildup_alternatives(fi, binds, events, nid, what)
+
+
+def message_buildup(fi, nm, call, bn, nid, result=None):
+    """`m = self.copy(payload=p); m.opt.block1 = v; return m` states the same fact as `self.copy(payload=p,
+    block1=v)` (Message.copy hands every keyword that is not a message field to setattr(new.opt, k, v)); a later
+    `m.payload = p` is the keyword payload=p.  Returns [(call with the stores folded into a `**{...}` operand,
+    path conditions)], or None when nothing is stored into the message after its construction.  Stores to other
+    attributes of the message are carried under keys no clause asks for."""
+    cfg = cfg_of(fi)
+    what = "message %s built in %s" % (nm, fi.short)
+    events, allowed = {}, set()
+    if result is not None:
+        allowed.add(id(result))
+    for st in walk_no_nested(fi.node):
+        if isinstance(st, ast.Assign) and len(st.targets) == 1 and isinstance(st.targets[0], ast.Name) and st.targets[0].id == nm:
+            allowed.add(id(st.targets[0]))
+        if isinstance(st, ast.Assign):
+            for t in st.targets:
+                c = chain(t) if isinstance(t, ast.Attribute) else None
+                if c is None or not c.startswith(nm + "."):
+                    continue
+                parts = c.split(".")[1:]
+                if len(parts) == 2 and parts[0] == "opt":
+                    key = parts[1]
+                elif parts == ["payload"]:
+                    key = "payload"
+                elif len(parts) == 1:
+                    key = "attribute:" + parts[0]
+                else:
+                    raise AnalysisError("%s: store to %s is outside the rule's vocabulary" % (what, c))
+                events.setdefault(cfg.loc1(st), []).append((ast.Constant(value=key), st.value, "set"))
+                base = t
+                while isinstance(base, ast.Attribute):
+                    base = base.value
+                allowed.add(id(base))
+        elif isinstance(st, ast.Call) and chain(st.func) == "setattr" and len(st.args) == 3 and not st.keywords and chain(st.args[0]) == nm + ".opt" \
+                and _stmt_call(cfg, st):
+            events.setdefault(cfg.loc1(st), []).append((st.args[1], st.args[2], "set"))
+            allowed.add(id(st.args[0].value))
+    if not events:
+        return None
+    if _other_uses(fi, nm, allowed):
+        raise AnalysisError("%s: the message is also used in a way the checker does not interpret before it is returned" % what)
+    out = []
+    for disp, conds in buildup_alternatives(fi, [(bn, ast.Dict(keys=[], values=[]))], events, nid, what):
+        new = copy.copy(call)
+        new.keywords = list(call.keywords) + [ast.keyword(arg=None, value=disp)]
+        out.append((new, conds))
+    # the constructor arguments are read where the message is returned: they must mean the same there
+    between = cfg.reach({bn}) & (rreach(cfg, nid) | {nid})
+    for y in names_in(call):
+        if any(set(cfg.locate(w)) & between for w in writes_to_name(fi.node, y) if cfg.loc1(w) != bn):
+            raise AnalysisError("%s: %s is rebound between the construction and the return" % (what, y))
+    return out
+
+
+def splat_alternatives(fi, call, nid):
+    """[(call', path conditions)]: `call` (evaluated at CFG node nid) with every `**name` operand whose dict is
+    built up by stores after its binding replaced by the equivalent dict display (see buildup_alternatives).
+    Calls without such operands come back unchanged as the only alternative."""
+    if not isinstance(call, ast.Call):
+        return [(call, ())]
+    alts = [([], ())]
+    changed = False
+    for k in call.keywords:
+        disp = dict_buildup(fi, k.value.id, nid, k.value) if k.arg is None and isinstance(k.value, ast.Name) else None
+        if disp is None:
+            alts = [(kws + [k], c) for kws, c in alts]
+            continue
+        changed = True
+        alts = [(kws + [ast.keyword(arg=None, value=d)], c + dc) for kws, c in alts for d, dc in disp]
+    if not changed:
+        return [(call, ())]
+    out = []
+    for kws, c in alts:
+        new = copy.copy(call)
+        new.keywords = kws
+        out.append((new, c))
+    return out
+
+
+def materialise_splats(fi, call, nid):
+    """Single-alternative form of splat_alternatives (kept for callers that cannot use path conditions)."""
+    alts = splat_alternatives(fi, call, nid)
+    if len(alts) != 1:
+        raise AnalysisError("dict passed as ** operand in %s is built up differently on different paths" % fi.short)
+    return alts[0][0]
 
 
 def _kw(call, name):
@@ -888,7 +1278,7 @@ def a(ctx):
     ctx.floor("return statements in _extract_block", len(rets), 1)
     ctx.ob("every normal exit of _extract_block returns a block", all(r.value is not None for r in rets) and cfg.must_pass(cfg.entry, [cfg.loc1(r) for r in rets]),
            fi, fi.node, construct="_extract_block")
-    N = Normalizer(rename={num: "NUM", mbs: "MAXBERT"})
+    N = DivNormalizer(rename={num: "NUM", mbs: "MAXBERT"})
     L = P("len(self.payload)")
     NUM = Poly.atom("NUM")
     fam = {}  # (return stmt, family) -> list of failure texts
@@ -903,17 +1293,28 @@ def a(ctx):
         c = chain(call.func) or ""
         return pure_or_predicate(call) or c in ("dict", "tuple", "self.copy") or c.split(".")[-1] == BT.split(".")[-2]
 
-    # `m = self.copy(...); return m`: the message is read where it is built (the definition dominates the return)
+    # `m = self.copy(...); return m`: the message is read where it is built (the definition dominates the return);
+    # stores into the message between its construction and the return, and dicts built up for a `**` operand,
+    # are folded into the call (one alternative per path, with that path's branch outcomes)
     rvals = {}
     for r in rets:
         if r.value is None:
             continue
         e, at = r.value, cfg.loc1(r)
+        forms = None
         if isinstance(e, ast.Name):
             ws = writes_to_name(fi.node, e.id)
             if len(ws) == 1 and Expander._def_value(e.id, ws[0]) is not None and cfg.dominates(cfg.loc1(ws[0]), at):
-                e, at = Expander._def_value(e.id, ws[0]), cfg.loc1(ws[0])
-        rvals[id(r)] = (materialise_splats(fi, e, at), at)
+                built, bn = Expander._def_value(e.id, ws[0]), cfg.loc1(ws[0])
+                if isinstance(built, ast.Call):
+                    folded = message_buildup(fi, e.id, built, bn, at, r.value)
+                    if folded is not None:
+                        # read at the return: splat operands of the constructor call are resolved there as well
+                        forms = [(c2, at, pc + pc2) for c1, pc in folded for c2, pc2 in splat_alternatives(fi, c1, at)]
+                e, at = built, bn
+        if forms is None:
+            forms = [(c, at, pc) for c, pc in splat_alternatives(fi, e, at)]
+        rvals[id(r)] = forms
     nalts = 0
     for s in range(8):
         bert = s == 7
@@ -925,7 +1326,7 @@ def a(ctx):
         for r in rets:
             if r.value is None:
                 continue
-            for lits, v in alts_expr(X, N, rvals[id(r)][0], rvals[id(r)][1], node_conditions(fi, r)):
+            for lits, v in [x for form, at, pc in rvals[id(r)] for x in alts_expr(X, N, form, at, node_conditions(fi, r) + list(pc))]:
                 nalts += 1
                 ctx.need(isinstance(v, ast.Call), "_extract_block returns something that is not a call building the block message")
                 pay = _kw(v, "payload")
